@@ -539,6 +539,161 @@ def _linear_abstraction(terms, som=True):
     return out[:-1] + extra + out[-1:], len(fresh)
 
 
+# ----------------------------------------------------------------------------- algebraic back end (sympy)
+
+
+class _NoAlg(Exception):
+    pass
+
+
+def _z3_to_sympy(t, syms):
+    import sympy as sp
+
+    if z3.is_rational_value(t):
+        f = t.as_fraction()
+        return sp.Rational(f.numerator, f.denominator)
+    if z3.is_int_value(t):
+        return sp.Integer(t.as_long())
+    if z3.is_algebraic_value(t):
+        raise _NoAlg("algebraic numeral")
+    if z3.is_const(t) or (z3.is_app(t) and t.decl().kind() == z3.Z3_OP_UNINTERPRETED):
+        if t.sort() not in (z3.RealSort(), z3.IntSort()):
+            raise _NoAlg("non-arithmetic atom")
+        k = t.sexpr()
+        if k not in syms:
+            syms[k] = (sp.Symbol("x%d" % len(syms), real=True), t)
+        return syms[k][0]
+    if not z3.is_app(t):
+        raise _NoAlg("not an application")
+    k = t.decl().kind()
+    ch = t.children()
+    if k == z3.Z3_OP_ADD:
+        return sp.Add(*[_z3_to_sympy(c, syms) for c in ch])
+    if k == z3.Z3_OP_MUL:
+        return sp.Mul(*[_z3_to_sympy(c, syms) for c in ch])
+    if k == z3.Z3_OP_SUB:
+        r = _z3_to_sympy(ch[0], syms)
+        for c in ch[1:]:
+            r = r - _z3_to_sympy(c, syms)
+        return r
+    if k == z3.Z3_OP_UMINUS:
+        return -_z3_to_sympy(ch[0], syms)
+    if k == z3.Z3_OP_DIV:
+        return _z3_to_sympy(ch[0], syms) / _z3_to_sympy(ch[1], syms)
+    if k == z3.Z3_OP_TO_REAL:
+        return _z3_to_sympy(ch[0], syms)
+    if k == z3.Z3_OP_POWER and z3.is_int_value(z3.simplify(ch[1])):
+        return _z3_to_sympy(ch[0], syms) ** z3.simplify(ch[1]).as_long()
+    raise _NoAlg("operator %s" % t.decl().name())
+
+
+def _collect_equalities(facts, timeout_ms=1500):
+    """polynomial equalities that hold under the facts: top-level conjuncts and consequents
+    of implications whose antecedent the facts imply (sqrt / reciprocal definitions)"""
+    eqs = []
+    pending = []
+
+    def visit(f, depth=0):
+        if z3.is_and(f):
+            for c in f.children():
+                visit(c, depth)
+        elif z3.is_eq(f) and f.arg(0).sort() in (z3.RealSort(), z3.IntSort()):
+            eqs.append(f)
+        elif z3.is_implies(f) and depth < 2:
+            pending.append((f.arg(0), f.arg(1)))
+
+    for f in facts:
+        visit(f)
+    for ante, cons in pending:
+        s = z3.Solver()
+        s.set("timeout", timeout_ms)
+        s.add(*facts)
+        s.add(z3.Not(ante))
+        if s.check() == z3.unsat:
+            visit(cons, 2)
+    return eqs
+
+
+def _denominators(t, acc):
+    if z3.is_app(t):
+        if t.decl().kind() == z3.Z3_OP_DIV:
+            acc.append(t.arg(1))
+        for c in t.children():
+            _denominators(c, acc)
+
+
+def _solve_algebraic(facts, goal, timeout_s=20):
+    """decide an equality between rational expressions by reduction modulo the polynomial
+    equalities among the facts (sqrt definitions ...): sound when every denominator is
+    non-zero under the facts, which is checked with z3.  Returns True (proved) or None."""
+    if not (z3.is_eq(goal) and goal.arg(0).sort() in (z3.RealSort(), z3.IntSort())):
+        return None
+    import signal
+
+    import sympy as sp
+
+    def _alarm(*a):
+        raise _NoAlg("timeout")
+
+    old = signal.signal(signal.SIGALRM, _alarm)
+    signal.alarm(int(timeout_s))
+    try:
+        syms = {}
+        expr = sp.together(_z3_to_sympy(goal.arg(0), syms) - _z3_to_sympy(goal.arg(1), syms))
+        num, den = sp.fraction(expr)
+        gens = []
+        dens = []
+        _denominators(goal, dens)
+        for e in _collect_equalities(facts):
+            try:
+                pe = sp.together(_z3_to_sympy(e.arg(0), syms) - _z3_to_sympy(e.arg(1), syms))
+            except _NoAlg:
+                continue
+            pn, pd = sp.fraction(pe)
+            if pn != 0:
+                gens.append(sp.expand(pn))
+                _denominators(e, dens)
+        num = sp.expand(num)
+        if num == 0:
+            ok = True
+        elif not gens:
+            ok = False
+        else:
+            variables = sorted({v for g_ in gens + [num] for v in g_.free_symbols}, key=lambda v: v.name, reverse=True)
+            try:
+                G = sp.groebner(gens, *variables, order="grevlex")
+                _, rem = G.reduce(num)
+            except Exception:
+                _, rem = sp.reduced(num, gens, *variables, order="grevlex")
+            ok = sp.expand(rem) == 0
+        if not ok:
+            return None
+        # every denominator must be non-zero under the facts
+        for d in dens:
+            s = z3.Solver()
+            s.set("timeout", 3000)
+            s.add(*facts)
+            s.add(d == 0)
+            if s.check() != z3.unsat:
+                return None
+        return True
+    except (_NoAlg, RecursionError, MemoryError):
+        return None
+    except Exception:
+        return None
+    finally:
+        signal.alarm(0)
+        signal.signal(signal.SIGALRM, old)
+
+
+def _abstraction_for_feasibility(terms, som=False):
+    out, n = _linear_abstraction(list(terms) + [z3.BoolVal(True)], som=som)
+    return out[:-1], n
+
+
+core.LINEAR_ABSTRACTION = _abstraction_for_feasibility
+
+
 def _solve_portfolio(facts, g, timeout_ms):
     """one goal: linear abstraction (z3, short) -> z3 (short) -> cvc5 -> z3 (full) -> z3
     nlsat pipeline.  returns (solver_with_query, result, seconds, backend)"""
@@ -560,6 +715,10 @@ def _solve_portfolio(facts, g, timeout_ms):
     tot += dt
     if r in ("sat", "unsat"):
         return s, r, tot, "z3"
+    t0 = time.time()
+    if _solve_algebraic(facts, g) is True:
+        return s, "unsat", tot + time.time() - t0, "sympy-groebner"
+    tot += time.time() - t0
     r3, dt3 = _solve_cvc5(s.to_smt2(), timeout_ms)
     tot += dt3
     if r3 == "unsat":
